@@ -917,11 +917,17 @@ func (fx *FnCtx) execRangeMap(st *State, x *ast.RangeStmt, m Val, mt *types.Map)
 	st.named[visName] = Val{empty, setSort, nil}
 	st.named["visited"] = st.named[visName]
 	st.named[fmt.Sprintf("dom%d", ord)] = Val{d0, setSort, nil}
+	// iter<N>: the number of completed iterations (ghost; lets an invariant count what each round must do)
+	iterName := fmt.Sprintf("iter%d", ord)
+	st.named[iterName] = Val{"0", "Int", tInt}
 	fx.checkInvariants(st, ord, cls, "init", x)
 	fx.havocForLoop(st, x.Body, nil, ord)
 	vis := fx.sc.Fresh(visName, setSort)
 	st.named[visName] = Val{vis, setSort, nil}
 	st.named["visited"] = st.named[visName]
+	it := fx.sc.Fresh(iterName, "Int")
+	st.facts = append(st.facts, "(>= "+it+" 0)")
+	st.named[iterName] = Val{it, "Int", tInt}
 	// visited ⊆ dom0
 	st.facts = append(st.facts, "(forall ((k "+ks+")) (! (=> (select "+vis+" k) (select "+d0+" k)) :pattern ((select "+vis+" k))))")
 	fx.assumeInvariants(st, cls, x)
@@ -956,6 +962,7 @@ func (fx *FnCtx) execRangeMap(st *State, x *ast.RangeStmt, m Val, mt *types.Map)
 			o.st.facts = append(o.st.facts, "(= "+nv+" (store "+vis+" "+k+" true))")
 			o.st.named[visName] = Val{nv, setSort, nil}
 			o.st.named["visited"] = o.st.named[visName]
+			o.st.named[iterName] = Val{"(+ " + it + " 1)", "Int", tInt}
 			fx.checkInvariants(o.st, ord, cls, "preserve", x)
 		case flBreak:
 			if o.label == "" {
